@@ -480,22 +480,35 @@ func c01Setters(c *Ctx) {
 	if fn := c.Fn("C01.6", "UConn", "SetClientRandom"); fn != nil {
 		param := info.Defs[fn.Decl.Type.Params.List[0].Names[0]]
 		okCopy := false
+		// the bytes reach Hello.Random either by copy(<Random or a local later stored there>, r) or by
+		// an assignment whose value derives from r; single-definition locals are read through
+		fromParam := func(e ast.Node) bool { return mentionsThroughLocals(fn, e, param, 0) }
+		isRandom := func(e ast.Expr) bool { return an.MentionsField(info, e, "PubClientHelloMsg", "Random") }
+		storedLocals := map[types.Object]bool{}
 		ast.Inspect(fn.Body, func(n ast.Node) bool {
-			call, ok := n.(*ast.CallExpr)
-			if !ok || len(call.Args) != 2 {
-				return true
-			}
-			if id, ok := call.Fun.(*ast.Ident); ok && id.Name == "copy" {
-				if an.MentionsField(info, call.Args[0], "PubClientHelloMsg", "Random") && an.MentionsObj(info, call.Args[1], param) {
+			as, ok := n.(*ast.AssignStmt)
+			if ok && len(as.Lhs) == 1 && len(as.Rhs) == 1 && an.FieldSel(info, an.Unparen(as.Lhs[0]), "PubClientHelloMsg", "Random") {
+				if fromParam(as.Rhs[0]) {
 					okCopy = true
+				}
+				if id, ok := an.Unparen(as.Rhs[0]).(*ast.Ident); ok {
+					storedLocals[objOf(info, id)] = true
 				}
 			}
 			return true
 		})
 		ast.Inspect(fn.Body, func(n ast.Node) bool {
-			as, ok := n.(*ast.AssignStmt)
-			if ok && len(as.Lhs) == 1 && len(as.Rhs) == 1 && an.FieldSel(info, an.Unparen(as.Lhs[0]), "PubClientHelloMsg", "Random") && an.MentionsObj(info, as.Rhs[0], param) {
-				okCopy = true
+			call, ok := n.(*ast.CallExpr)
+			if !ok || len(call.Args) != 2 {
+				return true
+			}
+			if id, ok := call.Fun.(*ast.Ident); ok && id.Name == "copy" && fromParam(call.Args[1]) {
+				if isRandom(call.Args[0]) {
+					okCopy = true
+				}
+				if d, ok := an.Unparen(call.Args[0]).(*ast.Ident); ok && storedLocals[objOf(info, d)] {
+					okCopy = true
+				}
 			}
 			return true
 		})
